@@ -75,9 +75,10 @@ PROPS["C07"] = dict(
     bounds="min-ADA: coin and coins_per_byte over all u64, size of the rest of the output K over 1..2^32 (all shapes at once through the size lemma); "
            "admission and size gates: every size, limit and amount over its full range",
     assumptions=["size lemma len(output.to_bytes()) = K + head(coin) with K independent of the coin: established by the C03 E1 harnesses (to_bytes == reference bytes for every coin)",
-                 "change outputs / collateral return are covered only through the functions they call (min_ada_for_output, add_output); the balancing loop itself is outside the bound"],
+                 "change outputs are covered through add_output (every output of the balancing step goes through it, C05); the collateral return through the collateral setters (C19's obligations, run by this check as well: "
+                 "a setter accepts only a return that meets the minimum computed by min_ada_for_output from the stored output itself)"],
     e1=[],
-    e2=["c07"],
+    e2=["c07", "c19"],
 )
 PROPS["C05"] = dict(
     bounds="arbitrary builder state (lazy initialisation) for the gate and for the balancing step; accounting getters over 1-3 stored items; every amount over all u64; one arbitrary asset (pointwise abstraction); "
